@@ -74,6 +74,8 @@ TYPEVARS = [
     ("constraints", ["int", "float"]),
     ("constraints", ["Duck", "nest:Float:ndarray:a"]),
     ("constraints", ["nest:Float:Duck:a", "nest:Bool:Duck:a"]),
+    ("constraints", ["union|ndarray|Duck", "float"]),  # a constraint that is itself a union (X | Y)
+    ("constraints", ["Union|Duck|Duck2", "ndarray"]),  # ... spelled typing.Union[...]
     ("free", []),
 ]
 
@@ -133,6 +135,14 @@ class Env:
         if name.startswith("nest:"):
             _, c, a, s = name.split(":")
             return self.cat(c)[self.atom(a), s]
+        if name.startswith("union|") or name.startswith("Union|"):
+            parts = [self.atom(x) for x in name.split("|")[1:]]
+            if name.startswith("Union|"):
+                return self.typing.Union[tuple(parts)]
+            u = parts[0]
+            for x in parts[1:]:
+                u = u | x
+            return u
         if name == "DuckNamesake":
             # a different array class with the same __name__ / __qualname__ as Duck
             if not hasattr(self, "_namesake"):
